@@ -62,6 +62,18 @@ func c18Static(c *Ctx) {
 				"Encode/Decode changed the value of a default parameters object", map[string]interface{}{"ts": ts.Short})
 		}
 	}
+	// the codec's own default parameter objects as call arguments (special.go)
+	for _, ts := range AllTS() {
+		reg, err := Registry(ts)
+		if err != nil {
+			continue
+		}
+		c.R.Case("c18:defaults:"+ts.Short, true, "c18.defaults")
+		c.R.Oracle("c18_default_parameters")
+		for _, p := range DefaultsCheck(ts, reg, ts.Fresh(), rng) {
+			c.R.Fail("oracle", "c18_default_parameters", "c18:"+ts.Short+":"+p.Sig, p.What, map[string]interface{}{"ts": ts.Short})
+		}
+	}
 	c.R.Oracle("c18_globals_unchanged")
 	if tables() != before {
 		c.R.Fail("oracle", "c18_globals_unchanged", "c18:global-written:htj2k-vlc-tables",
@@ -90,10 +102,11 @@ func BuildVrace() (string, error) {
 var (
 	reRound = regexp.MustCompile(`^ROUND procs=(\d+) mode=(\w+) calls=(\d+)`)
 	reFrame = regexp.MustCompile(`^\s+github\.com/cocosip/go-dicom-codecs/([^\s]+)\(\)`)
-	reFile  = regexp.MustCompile(`^\s+/repo/([^\s:]+):(\d+)`)
+	reFile  = regexp.MustCompile(`^\s+(/[^\s:]+):(\d+)`)
 )
 
-// raceSignature: "c18:race:<file>:<func>" from the first /repo frame of a race report.
+// raceSignature: "c18:race:<package dir>/<file>:<func>" from the first frame of a race report
+// that lies in the module under test (wherever its sources are checked out).
 func raceSignature(block string) (sig, where string) {
 	lines := strings.Split(block, "\n")
 	for i := 0; i+1 < len(lines); i++ {
@@ -106,14 +119,15 @@ func raceSignature(block string) (sig, where string) {
 			continue
 		}
 		fn := m[1] // e.g. jpeg2000/htj2k.(*Parameters).Validate
-		short := fn
+		dir, short := "", fn
 		if k := strings.LastIndex(fn, "/"); k >= 0 {
-			short = fn[k+1:]
+			dir, short = fn[:k+1], fn[k+1:]
 		}
 		if k := strings.Index(short, "."); k >= 0 {
-			short = short[k+1:]
+			dir, short = dir+short[:k], short[k+1:]
 		}
-		return "c18:race:" + f[1] + ":" + short, f[1] + ":" + f[2]
+		file := dir + "/" + filepath.Base(f[1])
+		return "c18:race:" + file + ":" + short, file + ":" + f[2]
 	}
 	return "c18:race:outside-repo", ""
 }
